@@ -19,6 +19,7 @@ package main
 import (
 	"context"
 	"fmt"
+	"os"
 	"sort"
 	"strings"
 
@@ -395,6 +396,10 @@ func (c *c06Cache) Get(ctx context.Context, key client.ObjectKey, obj client.Obj
 	}
 	n0 := len(c.Store.Log)
 	before := runtime.DeepCopyJSON(obj.(runtime.Unstructured).UnstructuredContent())
+	// the history as of this read: an environment action scheduled "after this call" runs inside
+	// Store.Get's After hook and must not count as a state the read lags behind
+	h, ok := c.xh[key.Name]
+	h = h[:len(h):len(h)]
 	err = c.Store.Get(ctx, key, obj, opts...)
 	if len(c.Store.Log) == n0 || c.rec == nil {
 		return err // the process is dead: the call never happened
@@ -406,7 +411,6 @@ func (c *c06Cache) Get(ctx context.Context, key client.ObjectKey, obj client.Obj
 		c.rec.XReads = append(c.rec.XReads, rd) // injected fault: nothing was read
 		return err
 	}
-	h, ok := c.xh[key.Name]
 	if !ok {
 		h = []*unstructured.Unstructured{nil}
 	}
@@ -441,6 +445,17 @@ func (c *c06Cache) Get(ctx context.Context, key client.ObjectKey, obj client.Obj
 		a := c06AbsXR(u)
 		gen, _, _ := unstructured.NestedInt64(u.Object, "status", "observed")
 		rd.Found, rd.Ref, rd.Labeled, rd.Fin, rd.Deleting, rd.Status, rd.Gen = true, a.Ref, a.Labeled, a.Fin, a.Deleting, a.Status, int(gen)
+	}
+	if os.Getenv("SIMSTORE_DEBUG") != "" {
+		rvs := []string{}
+		for _, x := range h {
+			if x == nil {
+				rvs = append(rvs, "-")
+			} else {
+				rvs = append(rvs, x.GetResourceVersion())
+			}
+		}
+		fmt.Fprintf(os.Stderr, "C06 xread occ=%d name=%s lag=%d idx=%d hist=%v servedRV=%s err=%v\n", occ, key.Name, lag, idx, rvs, obj.GetResourceVersion(), err)
 	}
 	c.rec.XReads = append(c.rec.XReads, rd)
 	return err
